@@ -5,11 +5,12 @@ def check(ctx):
     kernel.run_tables(ctx, 'C01', [
         ('Environment', '__init__'), ('Environment', 'schedule'), ('Environment', 'step'), ('Environment', 'peek'),
         ('Timeout', '__init__'), ('Initialize', '__init__'), ('Interruption', '__init__'),
-        ('RealtimeEnvironment', '__init__'),
+        ('RealtimeEnvironment', '__init__'), ('Environment', 'run@numeric'), ('Process', '_resume@agenda'),
     ])
     whomay.kernel_state_writers(ctx, 'C01')
     whomay.schedule_sites(ctx, 'C01')
     whomay.priority_constants(ctx, 'C01')
+    whomay.schedule_delay_exact(ctx, 'C01')
     guards.nan_refused(ctx, 'C01', [('Timeout', '__init__', 'delay'), ('Environment', 'run', 'until')],
                        'a NaN key breaks the heap order of the agenda: occurrences fire out of time order and the clock goes backwards')
     return ('Static analysis of the agenda mechanism: path tables of schedule/step/run/Timeout/Initialize/Interruption/'
